@@ -337,6 +337,26 @@ def minimise(prop, prog, sig, budget=400):
         best["ops"] = head + tail
         if hasattr(prop, "repair"):
             best = prop.repair(best) or best
+    if getattr(prop, "MINIMISE_SCHEDULE", False):
+        ok, r0 = has_sig(prop, best, sig)
+        if ok and r0.get("schedule"):
+            cand = copy.deepcopy(best)
+            cand["schedule"] = r0["schedule"]
+            ok2, _ = has_sig(prop, cand, sig)
+            if ok2:
+                best = cand
+                sbudget = [300]
+
+                def test_sched(sw):
+                    if sbudget[0] <= 0:
+                        return False
+                    sbudget[0] -= 1
+                    c = copy.deepcopy(best)
+                    c["schedule"] = best["schedule"][:1] + copy.deepcopy(sw)
+                    return has_sig(prop, c, sig)[0]
+
+                rest = ddmin_list(best["schedule"][1:], test_sched)
+                best["schedule"] = best["schedule"][:1] + rest
     # property-specific simplifications, greedy until fixpoint
     if hasattr(prop, "simplify"):
         progress = True
